@@ -26,10 +26,11 @@ TEXT = {'text': 'Kernel-checked theorems over an executable model of script.rs/o
          '(C16_readback); which programs panic (C16_build_total); push_slice writes the shortest of the four header forms, all of which decode to the same '
          'push (C16_min_push, C16_push_forms_decode); instructions_minimal succeeds iff no pushed slice is a single byte in 1..16/0x81 (C16_min_iter); script '
          'numbers round-trip for |n| < 2^31 and give NumericOverflow beyond, i64::MIN panics iff overflow checks are on (C16_scriptint*); one byte-form iff '
-         'per template predicate (C16_templates, C16_v1plus*); from_script yields an address exactly for the templates and its script_pubkey is the original '
-         'script (C16_from_script, C16_from_script_roundtrip), text round trip relative to C06 (C16_from_script_text). Finding F14 is re-derived: '
-         'from_script(51 01 aa) yields an address whose text does not parse (C16_from_script_refuted in Coq; end to end in the harness).',
- 'design_ref': 'DESIGN.md section 6, C16; finding F14 in section 7',
+         'per template predicate (C16_templates, C16_v1plus); from_script yields an address exactly for the templates and its script_pubkey is the original '
+         'script (C16_from_script, C16_from_script_roundtrip), text round trip relative to C06 (C16_from_script_text). All of these hold for every '
+         'byte string: finding F14 (from_script(51 01 aa) gave an address whose text did not parse) was re-derived by this check, repaired in the library '
+         '(0a76697, lower bound 2 in is_v1plus_p2witprog), the model follows the repaired code and the harness reports such inputs as violations again.',
+ 'design_ref': 'DESIGN.md section 6, C16; finding F14 in section 7 (fixed)',
  'note': 'Trusted: Coq kernel; hand-written model tied to the code by the per-run correspondence check (debug and release profiles); translator for opcode '
          'values; extraction + OCaml driver audited by in-kernel vm_compute; Rust harness. The address text codec is property C06 and enters as an explicit '
          'premise.',
